@@ -83,19 +83,19 @@ prop("C13",
      )
 
 prop("C09",
-     modules=["Emu2a.Props.C09"],
+     modules=["Emu2a.Props.C09", "Emu2a.Props.C01x.MulDivPages"],
      theorems=["Emu2a.C09.next_in_succs", "Emu2a.C09.in_page", "Emu2a.C09.fetch_words_equal", "Emu2a.C09.second_word_unique",
                "Emu2a.C09.defined_complete_bounded", "Emu2a.C09.prefix_bounded", "Emu2a.C09.second_defined_completes",
                "Emu2a.C09.muldiv_complete_cut", "Emu2a.C09.reset_reaches_fetch", "Emu2a.C09.undefined_never_complete",
-               "Emu2a.C09.completes_iff", "Emu2a.Gen.decode_ok"],
+               "Emu2a.C09.completes_iff", "Emu2a.Gen.decode_ok", "Emu2a.C01.page_B", "Emu2a.C01.page_C"],
      harness="c09",
      drill={"prefix": "nexthash", "cmd": "c09drill"},
      shrink=False,
      exhaustive={"quick": False, "thorough": True},
-     level_text="Lean theorems evaluated by the kernel over the control store regenerated from microprogram_ram_content.rs: the graph of (micro-address, instruction register) nodes over-approximates the real sequencer for every flag/ALU-condition/interrupt input (next_in_succs), every defined first byte and every defined second byte reaches the next fetch within 15 (+3+1 for prefixes) steps visiting programmed words only, the only cycles are the MUL and DIV loops (single back edge each), the undefined first bytes 0x4C-0x4F/0xE0-0xEF form closed fetch-free sets, completes_iff; the next-address function of signals.rs is tied to the model by block hashes over its whole domain (512 x 256 x 16 x 16; quick tier: all programmed addresses + a quarter of the rest), and every opcode is run on the real machine",
+     level_text="Lean theorems evaluated by the kernel over the control store regenerated from microprogram_ram_content.rs: the graph of (micro-address, instruction register) nodes over-approximates the real sequencer for every flag/ALU-condition/interrupt input (next_in_succs), every defined first byte and every defined second byte reaches the next fetch within 15 (+3+1 for prefixes) steps visiting programmed words only, the only cycles are the MUL and DIV loops (single back edge each), the undefined first bytes 0x4C-0x4F/0xE0-0xEF form closed fetch-free sets, completes_iff; page_B / page_C (from C01's loop lemmas): every MUL and DIV opcode reaches the next fetch for all operand values, zero divisor included; the next-address function of signals.rs is tied to the model by block hashes over its whole domain (512 x 256 x 16 x 16; quick tier: all programmed addresses + a quarter of the rest), and every opcode is run on the real machine",
      technique="Lean 4 kernel evaluation (decide +kernel) of graph properties over the translated control store + exhaustive differential of the next-address function + opcode enumeration on the real machine",
-     rule="nexthash: FNV hash of next_microprogram_address over 256 IR x 16 flag x 8 ALU-condition x 2 interrupt values per micro-address, real Signals vs model; spec.flow: every first byte (x every defined second byte and a sample of undefined ones for prefixes) executed from a forced boundary with random registers/flags/pending interrupt, observing zero words, page escapes, completion and micro-step count; distinct = distinct (opcode, second byte, registers, interrupt) tuples",
-     explanation="MUL/DIV loop termination for all 65 536 operand pairs is part of C01's loop theorems (see evidence of C01); here the harness runs MUL/DIV with random operands",
+     rule="nexthash: FNV hash of next_microprogram_address over 256 IR x 16 flag x 8 ALU-condition x 2 interrupt values per micro-address, real Signals vs model; spec.flow: every first byte (x every defined second byte and a sample of undefined ones for prefixes) executed from a forced boundary with random registers/flags/pending interrupt, observing zero words, page escapes, completion and micro-step count; all 32 MUL/DIV opcodes with boundary operands (0, 1, 2, 0x80, 0xFF) in R0-R2 in every combination; distinct = distinct (opcode, second byte, registers, interrupt) tuples",
+     explanation="MUL/DIV loop termination for all 65 536 operand pairs: C01's page_B / page_C (every MUL and DIV opcode reaches the next fetch from any state, by induction over the loop) are part of this property's theorem list; the harness runs MUL/DIV with random and with boundary operands (0, 1, 2, 0x80, 0xFF in every register)",
      assumptions=["level interrupts are constantly absent (Bus::get_level_interrupt returns None in the source)"],
      )
 
